@@ -78,8 +78,10 @@ Fixpoint c02_wire_inc_b (tr : list cev) : bool :=
   end.
 
 (* (5) replay exclusion: processing the events in time order, remember (inside a resendMessages execution?,
-   has it transmitted a replayed item?); a first-time item after a replayed one inside the same execution fails *)
+   has it transmitted a replayed item?); a first-time item after a replayed one inside the same execution fails,
+   and so does a replayed stored message (PossDup) transmitted outside any execution *)
 Definition citem_first (i : citem) : bool := match i with IFirst _ _ => true | _ => false end.
+Definition citem_replay (i : citem) : bool := match i with IReplay _ _ => true | _ => false end.
 Fixpoint c02_rstate (tr : list cev) : option (bool * bool) :=
   match tr with
   | [] => Some (false, false)
@@ -90,7 +92,8 @@ Fixpoint c02_rstate (tr : list cev) : option (bool * bool) :=
           match e with
           | EvResendBegin => Some (true, false)
           | EvResendEnd => Some (false, false)
-          | EvWire i => if citem_first i then (if inres && seen then None else Some (inres, seen)) else Some (inres, inres)
+          | EvWire i => if citem_first i then (if inres && seen then None else Some (inres, seen))
+                        else if citem_replay i && negb inres then None else Some (inres, inres)
           | _ => Some (inres, seen)
           end
       end
